@@ -88,7 +88,8 @@ class NtTriplesYielder(BaseTriplesYielder):
         """
         for i in range(len(target_substring)):
             if target_substring[i] in " \t":
-                return i
+                # "_:b1. # comment": the dot that closes the statement is not part of the token
+                return i - 1 if i > 0 and target_substring[i - 1] == "." else i
         return len(target_substring) - 1 if target_substring.endswith(".") else len(target_substring)
 
     def _look_for_last_index_of_literal_token(self, target_str, first_index):
